@@ -54,6 +54,11 @@ CLAIMED = {
    note="Trusted: TLC, PipelineCompose.tla, the item/postprocessing/finalizer text library shared by driver and judge. Resolver ties: names are unique in a resolver, so (priority, name) is total; 'stable' is vacuous there.",
    technique="TLA+ composition algebra and ownership mechanism model-checked with TLC; TLC-generated operations replayed into real pipeline objects; TLC judges outputs against the spec's reference definition and stage semantics",
    ref="6/C14"),
+ "C17": dict(level=MC,
+   text="TLC model-checks spec/Placeholders.tla (MC_Placeholders: a value with placeholders pushed through a pipeline one item per transition - number of results = product of the handled tables, first placeholder outermost, unhandled placeholders survive, handled ones are gone, none invented) on top of the modifier machine (expand). TLC-generated (value, modifier chain, placeholder pipeline, variable table) cases are converted by the real pipeline + backend; TLC parses the query with the target grammar and compares it with the rule's meaning after the spec's own placeholder rewriting (OR of all combinations), demands a Sigma error naming a left-over placeholder otherwise, and searches every decoded predicate for a raw %name%.",
+   note="Trusted: TLC, Placeholders/Detection/QueryLang specs, /verif backend templates. Unspecified (accepted either way, but never a raw placeholder): query-expression items on mixed strings, regex + placeholder pipeline, empty variable lists, boolean entries. One recorded deviation (alternatives AND-linked under 'all').",
+   technique="TLA+ placeholder-expansion model checked with TLC; TLC-generated cases replayed through real pipelines and backend; TLC parses and judges queries / error records",
+   ref="6/C17"),
 }
 REASON_NOT_BUILT = "check not built yet in this round (see DESIGN.md section 6 for the planned TLA+ model); not claimed until its judge is sound"
 ALL = [f"C{i:02d}" for i in range(1, 21)]
